@@ -1370,6 +1370,10 @@ class XMLSchemaBase(XsdValidator, ElementPathMixin[Union[SchemaType, XsdElement]
                     yield context.missing_element_error(validation, self, elem, path, schema_path)
                     return
 
+            if context.level:
+                # Not the root: no parent model group has set the xmlns context of the element
+                context.converter.set_xmlns_context(elem, context.level)
+
             try:
                 xsd_element.raw_decode(elem, validation, context)
             except XMLSchemaStopValidation:
